@@ -8,7 +8,8 @@ This file provides
 * the run equations of the primitive actions and of `>>=`;
 * `Resp R m`: "every normally-returning run of `m` relates the initial and the final state by `R`", for the three
   preorders `RN` (call log untouched, recorded error kept), `RM` (recorded error kept, call log only grows) and
-  `RQ` (once an error is recorded: error kept and call log untouched), with the closure lemmas;
+  `RQ` (once an error is recorded: error kept and call log untouched) and their conjunction `RS`, with the closure
+  lemmas;
 * `Resp` facts for every operator / step function of `Eval.lean`;
 * the stickiness of `eval` (`eval_of_err`), `eval_mono`, `eval_quiet`;
 * the big-step decomposition equations `eval_*_eq` (from a state without recorded error);
@@ -98,6 +99,14 @@ theorem RQ.good : Good RQ where
   refl _ := fun _ h => ⟨h, rfl⟩
   trans h1 h2 := fun x hx => ⟨(h2 x (h1 x hx).1).1, (h2 x (h1 x hx).1).2.trans (h1 x hx).2⟩
   ofN h := fun x hx => ⟨h.2 x hx, h.1⟩
+
+/-- both: a recorded error is kept, the call log only grows, and it is frozen once an error is recorded -/
+def RS (st s : St) : Prop := RM st s ∧ RQ st s
+
+theorem RS.good : Good RS where
+  refl s := ⟨RM.good.refl s, RQ.good.refl s⟩
+  trans h1 h2 := ⟨RM.good.trans h1.1 h2.1, RQ.good.trans h1.2 h2.2⟩
+  ofN h := ⟨RM.good.ofN h, RQ.good.ofN h⟩
 
 section closure
 variable {R : St → St → Prop}
@@ -275,6 +284,42 @@ theorem callStep_resp (fns : List (String × FnSpec)) (pv : Val) (noArgs ell : B
     | (dsimp only)
     | split)
 
+/-- a failed callee expression: the call step returns nil at once: nothing is looked up, no argument is
+    evaluated, nothing is called (`VisitPrimaryExpr` re-checks the error right after the primary expression) -/
+theorem callStep_of_err (fns : List (String × FnSpec)) (pv : Val) (noArgs ell : Bool) (margs : M (List Val))
+    {st : St} {x : Err} (h : st.err = some x) : callStep fns pv noArgs ell margs st = .ok (.nil, st) := by
+  unfold callStep
+  rw [bind_apply, hasErr_apply]
+  simp [h, pure_apply]
+
+/-- from a state without recorded error the checks before the argument list pass -/
+theorem callStep_of_ok (fns : List (String × FnSpec)) (pv : Val) (noArgs ell : Bool) (margs : M (List Val))
+    {st : St} (h : st.err = none) :
+    callStep fns pv noArgs ell margs st
+      = (if !isFuncVal pv then setErr
+         else if noArgs then callFinish fns pv [] ell
+         else do
+           let vs ← margs
+           if ← hasErr then return .nil
+           callFinish fns pv vs ell) st := by
+  unfold callStep
+  rw [bind_apply, hasErr_apply]
+  simp only [h, Option.isSome_none, Bool.false_eq_true, if_false]
+  split
+  · rfl
+  · split
+    · rfl
+    · rw [bind_apply, hasErr_apply]
+      simp only [h, Option.isSome_none, Bool.false_eq_true, if_false]
+
+/-- once an error is recorded a call step calls nothing (whatever the argument evaluation would do) -/
+theorem callStep_quiet (fns : List (String × FnSpec)) (pv : Val) (noArgs ell : Bool) (margs : M (List Val)) :
+    Resp RQ (callStep fns pv noArgs ell margs) := by
+  intro st r s hr x hx
+  rw [callStep_of_err fns pv noArgs ell margs hx] at hr
+  cases hr
+  exact ⟨hx, rfl⟩
+
 /-! ## the tree walk never clears or replaces a recorded error, and the call log only grows -/
 
 theorem eval_mono (fns : List (String × FnSpec)) (data : List Val) (e : E) : Resp RM (eval fns data e) := by
@@ -323,7 +368,7 @@ theorem evalOpt_mono (fns : List (String × FnSpec)) (data : List Val) (o : Opti
 /-! ## stickiness: with an error recorded, every visit returns nil at once -/
 
 /-- the literal kinds the visitor knows (`VisitLiteral`); the model panics on every other kind -/
-def knownLit (k : String) : Bool := k = "nil" || k = "int" || k = "float" || k = "str"
+def knownLit (k : String) : Bool := k = "nil" || k = "int" || k = "float" || k = "str" || k = "imag"
 
 /-- the constructs that do NOT panic unconditionally when visited with an error already recorded: everything
     except a literal of unknown kind.  (Unary `&` also panics unconditionally, but only after its guard and its
@@ -343,23 +388,26 @@ theorem evalLit_of_err {k t : String} {st : St} {x : Err} (hk : knownLit k = tru
   · exact guardErr_err h
   · exact guardErr_err h
   · exact guardErr_err h
-  · rename_i h1 h2 h3 h4
+  · exact guardErr_err h
+  · rename_i h1 h2 h3 h4 h5
     simp [knownLit] at hk
-    rcases hk with ((hk | hk) | hk) | hk
+    rcases hk with (((hk | hk) | hk) | hk) | hk
     · exact absurd hk h1
     · exact absurd hk h2
     · exact absurd hk h3
     · exact absurd hk h4
+    · exact absurd hk h5
 
 theorem evalLit_unknown {k t : String} (hk : knownLit k = false) (st : St) : evalLit k t st = .error () := by
   unfold evalLit
   simp [knownLit] at hk
-  obtain ⟨⟨⟨h1, h2⟩, h3⟩, h4⟩ := hk
+  obtain ⟨⟨⟨⟨h1, h2⟩, h3⟩, h4⟩, h5⟩ := hk
   split
   · exact absurd rfl h1
   · exact absurd rfl h2
   · exact absurd rfl h3
   · exact absurd rfl h4
+  · exact absurd rfl h5
   · rfl
 
 /-- STICKY: visited with an error recorded, every expression returns nil at once, leaving the state untouched -/
@@ -437,6 +485,51 @@ theorem evalOpt_quiet (fns : List (String × FnSpec)) (data : List Val) (o : Opt
   cases o with
   | none => rw [evalOpt]; exact Resp.pure RQ.good _
   | some ex => rw [evalOpt]; exact Resp.bind RQ.good (eval_quiet fns data ex) (fun _ => Resp.pure RQ.good _)
+
+/-! ## both at once (`RS`): what every continuation of a sub-evaluation respects -/
+
+theorem Resp.and {α} {m : M α} (h1 : Resp RM m) (h2 : Resp RQ m) : Resp RS m :=
+  fun st r s h => ⟨h1 st r s h, h2 st r s h⟩
+
+theorem eval_rs (fns : List (String × FnSpec)) (data : List Val) (e : E) : Resp RS (eval fns data e) :=
+  Resp.and (eval_mono fns data e) (eval_quiet fns data e)
+
+theorem evalArgs_rs (fns : List (String × FnSpec)) (data : List Val) (as : List E) :
+    Resp RS (evalArgs fns data as) :=
+  Resp.and (evalArgs_mono fns data as) (evalArgs_quiet fns data as)
+
+theorem evalOpt_rs (fns : List (String × FnSpec)) (data : List Val) (o : Option E) (d : Int) :
+    Resp RS (evalOpt fns data o d) :=
+  Resp.and (evalOpt_mono fns data o d) (evalOpt_quiet fns data o d)
+
+theorem callStep_rs (fns : List (String × FnSpec)) (pv : Val) (noArgs ell : Bool) {margs : M (List Val)}
+    (hargs : Resp RM margs) : Resp RS (callStep fns pv noArgs ell margs) :=
+  Resp.and (callStep_resp fns pv noArgs ell hargs) (callStep_quiet fns pv noArgs ell margs)
+
+/-- the rest of a call after one of its arguments: the remaining arguments, the re-check, the call itself -/
+theorem callRest_rs (fns : List (String × FnSpec)) (pv : Val) (ell : Bool) {mrest : M (List Val)}
+    (hrest : Resp RS mrest) (f : List Val → List Val) :
+    Resp RS (do
+      let ws ← mrest
+      if ← hasErr then return .nil
+      callFinish fns pv (f ws) ell : M Val) := by
+  refine Resp.and ?_ ?_
+  · refine Resp.bind RM.good (fun st r s h => (hrest st r s h).1) (fun ws => ?_)
+    refine Resp.bind RM.good (Resp.hasErr RM.good) (fun b => ?_)
+    split
+    · exact Resp.pure RM.good _
+    · exact callFinish_resp fns pv _ ell
+  · intro st r s hr x hx
+    rw [bind_apply] at hr
+    cases hm : mrest st with
+    | error u => rw [hm] at hr; cases hr
+    | ok p =>
+      obtain ⟨ws, s1⟩ := p
+      obtain ⟨hx1, hc1⟩ := (hrest st ws s1 hm).2 x hx
+      rw [hm] at hr
+      simp only [bind_apply, hasErr_apply, hx1, Option.isSome_some, if_true, pure_apply] at hr
+      cases hr
+      exact ⟨hx1, hc1⟩
 
 /-! ## big-step equations (from a state without recorded error) -/
 
